@@ -94,11 +94,17 @@ let judge _id (c : cursor) (r : cursor) : bool * string =
           if Float.is_nan iv && asrow s1 = XIndet then uninit (Printf.sprintf "model %d: never-visited pair (%d,%d): cell %d" k s a s1)
           else if iv <> want then oracle_fail "unvisited_default" site (Printf.sprintf "model %d: never-visited pair (%d,%d): P(%d)=%h" k s a s1 iv)) irow;
       if iR <> 0.0 then oracle_fail "unvisited_default" site (Printf.sprintf "model %d: never-visited pair (%d,%d) has non-zero reward" k s a) in
+    let contam : (int * int * int, unit) Hashtbl.t = Hashtbl.create 8 in
     let sparse_contaminated_raw (sm : sml) (sm_asis : sml) k s a (irow : float list) =
+      (* sticky: once the as-is and repaired models have diverged on a row, the row stays excluded
+         (the as-is rational model does not follow inf/nan) until the implementation is seen to
+         follow the repaired model there again *)
       let idx = List.init sS (fun x -> x) in
       let diverged = List.exists (fun s1 -> not (close (ts sm (n_ a) (n_ s) (n_ s1)) (ts sm_asis (n_ a) (n_ s) (n_ s1)))) idx in
       let follows_fixed = List.for_all2 (fun s1 iv -> closef iv (ts sm (n_ a) (n_ s) (n_ s1))) idx irow in
-      if diverged && not follows_fixed then begin
+      if follows_fixed then begin Hashtbl.remove contam (k, s, a); false end
+      else if diverged || Hashtbl.mem contam (k, s, a) then begin
+        Hashtbl.replace contam (k, s, a) ();
         defer "sparse_sync_overwrites_stale" (ssite ^ "::sync") (Printf.sprintf "model %d row (%d,%d): stale entries not overwritten by the non-Eigen sync(s,a); impl [%s], repaired model [%s]" k s a
           (String.concat " " (List.map (Printf.sprintf "%g") irow)) (String.concat " " (List.map (fun s1 -> string_of_q (ts sm (n_ a) (n_ s) (n_ s1))) idx)));
         true end
@@ -237,8 +243,9 @@ let judge _id (c : cursor) (r : cursor) : bool * string =
     done;
     (match !deferred with Some (cl, site, d) -> oracle_fail cl site d | None -> ());
     let nt = !nrec > 0 && (!nsync + !nincr > 0) in
-    let tag = Printf.sprintf "mdp%s%s%s%s" ek (if !nincr > 0 then "+incr" else "") (if !sawreset then "+reset" else "")
-        (if !nrec >= 10000 then "+long" else "") in
+    let all_pre = Array.for_all (function Dense d -> not (t_bad d.tr) | Sparse d -> not (t_bad d.str)) !models in
+    let tag = Printf.sprintf "mdp%s%s%s%s" ek (if !nincr > 0 then (if all_pre then "+incr_pre" else "+incr_wild") else "") (if !sawreset then "+reset" else "")
+        (if !nrec >= 10000 then "+x10000" else "") in
     (nt, tag)
   | "svt" ->
     let sS = next_int c in let sA = next_int c in
